@@ -3,6 +3,7 @@
 package slip
 
 import (
+	"reflect"
 	"sort"
 	"strconv"
 )
@@ -12,6 +13,21 @@ const HashTableSymbol = Symbol("hash-table")
 
 // HashTable of Objects.
 type HashTable map[Object]Object
+
+// Hashable returns true if the object can be a key of a HashTable. Objects
+// built on a Go slice or map such as lists, octets and hash-tables can not,
+// using one as a key of a Go map is a run time fault.
+func Hashable(key Object) bool {
+	return key == nil || reflect.ValueOf(key).Comparable()
+}
+
+// MustBeHashable raises a type-error if the key can not be a key of a
+// HashTable.
+func MustBeHashable(s *Scope, depth int, key Object) {
+	if !Hashable(key) {
+		TypePanic(s, depth, "key", key, "hashable object")
+	}
+}
 
 // String representation of the Object.
 func (obj HashTable) String() string {
